@@ -277,6 +277,9 @@ def run_case(case):
                     t['fields'].append(['arr', 'array'])
                 for r in t['rows']:
                     r['arr'] = [1, ['x']]
+            # (the programs were generated before every table got its 'arr' field: a step adding a field of that name
+            # would now add a second one - an ill-formed program)
+            s2 = [x for x in s2 if not (x['op'] == 'add_field' and x.get('name') == 'arr')]
             specs = s1 + [{'op': 'user', 'fn': 'u_arr_append', 'form': 'function'}] + s2
     else:
         tables, specs, _ = dsl.gen_program(rng)
